@@ -107,7 +107,7 @@ class Check:
     assumptions = ["the fresh function is built from the same method specs in the same registration order"]
 
     def tasks(self, tier, seed):
-        per = 60 if tier == "quick" else 2500
+        per = 250 if tier == "quick" else 2500
         return [{"kind": "rand", "seed": seed * 1000 + i, "n": per} for i in range(16)]
 
     def run_task(self, task):
